@@ -290,6 +290,24 @@ def family_jobs(ck, tier, rnd):
         src, templates, data, kw, eglob = c14.concretize(c, i % 6)
         sc.append(("scope", dict(templates=templates, globals=eglob), src, data))
     jobs += pick(sc)
+    # TagState programs (cycle / ifchanged / increment / decrement / case in loops, directly and through partials); the group name of a
+    # cycle is also written as the empty string and as a variable holding "" / nil / a number (the key then falls back to the arguments)
+    from . import x01
+    rts = run_tlc("TagState", f"cfg/TagState_{tier}.cfg", workers=1, timeout=3000)
+    ck.tlc("TagState (family for C01)", rts)
+    tsj = []
+    for i, c in enumerate(rts.emitted):
+        src, templates = x01.concretize(c)
+        data = {}
+        if "'g':" in src or any("'g':" in t for t in templates.values()):
+            sub = ["'g':", "'':", "grp:", "grp:", "grp:"][i % 5]
+            data = {"grp": ["", None, 0][i % 3]} if sub == "grp:" else {}
+            src = src.replace("'g':", sub)
+            templates = {k: t.replace("'g':", sub) for k, t in templates.items()}
+            if sub == "grp:":
+                src = src.replace("{% render 'p", "{% render 'p").replace(", i: i %}", ", i: i, grp: grp %}")
+        tsj.append(("tagstate", dict(templates=templates), src, data))
+    jobs += pick(tsj)
     return jobs
 
 
